@@ -309,6 +309,108 @@ fn prune_non_relay_paths(paths: &mut FxHashMap<transports::Addr, PathState>) {
     paths.retain(|addr, _| !must_prune.contains(addr));
 }
 
+/// Thin pass-through wrappers for the external runtime-verification harness.
+#[cfg(feature = "verif-hooks")]
+#[allow(missing_docs, unreachable_pub, dead_code, missing_debug_implementations)]
+pub(crate) mod verif {
+    use super::*;
+    pub use crate::socket::transports::Addr;
+
+    /// Mirror of [`PathStatus`] with public visibility.
+    #[derive(Debug, Clone, Copy, PartialEq, Eq)]
+    pub enum Status {
+        Open,
+        Inactive(Instant),
+        Unusable,
+        Unknown,
+    }
+
+    impl From<&PathStatus> for Status {
+        fn from(s: &PathStatus) -> Self {
+            match s {
+                PathStatus::Open => Status::Open,
+                PathStatus::Inactive(t) => Status::Inactive(*t),
+                PathStatus::Unusable => Status::Unusable,
+                PathStatus::Unknown => Status::Unknown,
+            }
+        }
+    }
+
+    impl From<Status> for PathStatus {
+        fn from(s: Status) -> Self {
+            match s {
+                Status::Open => PathStatus::Open,
+                Status::Inactive(t) => PathStatus::Inactive(t),
+                Status::Unusable => PathStatus::Unusable,
+                Status::Unknown => PathStatus::Unknown,
+            }
+        }
+    }
+
+    fn snapshot(paths: &FxHashMap<Addr, PathState>) -> Vec<(Addr, Status)> {
+        paths
+            .iter()
+            .map(|(a, s)| (a.clone(), Status::from(&s.status)))
+            .collect()
+    }
+
+    /// Runs the real [`prune_non_relay_paths`] on a path set built from `entries` and
+    /// returns the surviving entries.
+    pub fn prune(entries: Vec<(Addr, Status)>) -> Vec<(Addr, Status)> {
+        let mut paths: FxHashMap<Addr, PathState> = FxHashMap::default();
+        for (addr, status) in entries {
+            paths.insert(
+                addr,
+                PathState {
+                    sources: HashMap::new(),
+                    status: status.into(),
+                },
+            );
+        }
+        prune_non_relay_paths(&mut paths);
+        snapshot(&paths)
+    }
+
+    /// The real [`RemotePathState`], every method forwarded unchanged.
+    pub struct PathSet(RemotePathState);
+
+    impl PathSet {
+        pub fn new() -> Self {
+            Self(RemotePathState::new(Default::default()))
+        }
+        pub fn insert_open_path(&mut self, addr: Addr) {
+            self.0.insert_open_path(addr, Source::Connection)
+        }
+        pub fn abandoned_path(&mut self, addr: &Addr) {
+            self.0.abandoned_path(addr)
+        }
+        pub fn insert_multiple(&mut self, addrs: Vec<Addr>) {
+            self.0.insert_multiple(addrs.into_iter(), Source::App)
+        }
+        pub fn resolve_remote(&mut self, tx: oneshot::Sender<Result<(), AddressLookupFailed>>) {
+            self.0.resolve_remote(tx)
+        }
+        pub fn resolve_requests_is_empty(&self) -> bool {
+            self.0.resolve_requests_is_empty()
+        }
+        pub fn address_lookup_finished(&mut self, result: Result<(), AddressLookupFailed>) {
+            self.0.address_lookup_finished(result)
+        }
+        pub fn is_empty(&self) -> bool {
+            self.0.is_empty()
+        }
+        pub fn addrs(&self) -> Vec<Addr> {
+            self.0.addrs().cloned().collect()
+        }
+        pub fn prune_paths(&mut self) {
+            self.0.prune_paths()
+        }
+        pub fn snapshot(&self) -> Vec<(Addr, Status)> {
+            snapshot(&self.0.paths)
+        }
+    }
+}
+
 #[cfg(test)]
 mod tests {
     use std::{
